@@ -14,5 +14,7 @@ open Nitime.C10.Props
 #print axioms autocorr_is_lagged_sum
 #print axioms autocorr_zero_real
 #print axioms arPsd_formula
+#print axioms realN_spec
+#print axioms whole_spec
 #print axioms lfilter1_recursion
 #print axioms generator_recursion
